@@ -67,6 +67,23 @@ def real_one(case):
     from lomond.session import WebsocketSession
 
     log = []
+    intr = []          # what happened to application sends attempted while the tunnel was not up
+
+    def intrude(where):
+        # another application thread trying to send while the client negotiates with the proxy (or after it failed):
+        # the call must be refused and must not reach the socket
+        if not case.get('intrude'):
+            return
+        from lomond import errors as _errors
+        for call in ((lambda: ws.send_text('intruder')), (lambda: ws.send_ping(b'i')), (lambda: ws.send_binary(b'intruder'))):
+            try:
+                call()
+            except _errors.WebSocketError as e:
+                intr.append([where, type(e).__name__])
+            except Exception as e:  # noqa
+                intr.append([where, 'other:' + type(e).__name__])
+            else:
+                intr.append([where, 'accepted'])
     reads = [tuple(r) for r in case['reads']]
     wfail = set(case['wfail'])
     st = dict(wctr=0)
@@ -100,6 +117,7 @@ def real_one(case):
             log.append('W:%d:%s' % (self.tls, data.hex()))
 
         def recv(self, n):
+            intrude('recv')
             if not reads:
                 log.append('R:timeout')
                 raise socket.timeout('timed out')
@@ -123,12 +141,14 @@ def real_one(case):
     class Sess(WebsocketSession):
         def _connect_sock(self, host, port, ssl=False):
             log.append('C:%s:%s:%d' % (_s(host), port, 1 if ssl else 0))
+            intrude('connect')
             if not case['conn']:
                 self._socket_fail('unable to connect')
             return FakeSock()
 
         def _wrap_socket(self, sock, host):
             log.append('T:%s:%d' % (_s(host), 1 if case['wrap'] else 0))
+            intrude('wrap')
             if not case['wrap']:
                 raise ssl.SSLError('simulated TLS failure')
             return FakeSock(tls=True)
@@ -162,6 +182,7 @@ def real_one(case):
             log.append('E:connecting')
         elif ev.name == 'connect_fail':
             log.append('E:connect_fail:' + classify_fail(ev.reason))
+            intrude('connect_fail')
             break
         elif ev.name == 'connected':
             log.append('E:connected:' + _s(ev.proxy))
@@ -172,7 +193,7 @@ def real_one(case):
         if n > 4:
             break
     gen.close()
-    return dict(trace=' '.join(log), req=req.hex())
+    return dict(trace=' '.join(log), req=req.hex(), intr=intr)
 
 
 def model_line(case, reqhex):
@@ -461,6 +482,11 @@ def judge(res, case, out):
     def fail(cls, what, expected=None):
         res.failures.append(dict(cls=cls, what=what, input=case, observed=[t[:160] for t in tk][:40], expected=expected))
 
+    bad = [x for x in out.get('intr', []) if x[1] == 'accepted' or x[1].startswith('other:')]
+    if bad:
+        return fail('sent-before-tunnel', 'an application send attempted during %s (before the tunnel was up / after the proxy failed) was %s instead of being refused' % (bad[0][0], bad[0][1]))
+    if out.get('intr'):
+        res.count('intrusions_refused', len(out['intr']))
     tm, pm = meta['target'], meta['proxy']
     if tm['port'] == 'error':
         if trace != 'CTOR:ValueError':
@@ -620,6 +646,8 @@ def expected_outcome(case):
 # ---------------------------------------------------------------------------------------------
 
 def run_cases(res, cases, model_ok, label):
+    for i, c in enumerate(cases):
+        c['intrude'] = (i % 2 == 1)
     outs = runner.parallel_map('props.c19', 'real_one', cases)
     good = []
     for c, o in zip(cases, outs):
@@ -652,7 +680,7 @@ def explore(res, tier, seed, model_ok=True):
                 'other scheme entry arbitrary; 10% through HTTP_PROXY/HTTPS_PROXY) x proxy URL (http/https/other scheme, credentials shapes, port defaults, bad ports, odd shapes) '
                 'x reply (200 variants, other statuses, odd status tokens, no status, unterminated, around the 16384 limit, empty, garbage) x segmentation '
                 '(whole, bytewise, random, inside the separator; recv <= 1024) x what follows (EOF, socket error, timeout, silence, more bytes) x failures at connect, '
-                'CONNECT write, any recv, TLS wrap, request write; exhaustive: every status code 0..999, every 1- and 2-cut segmentation of a 200 and a 407 reply, '
+                'CONNECT write, any recv, TLS wrap, request write; in every second case application sends (text, ping, binary) are attempted at every socket call of the negotiation and at ConnectFail and must be refused without reaching the socket; exhaustive: every status code 0..999, every 1- and 2-cut segmentation of a 200 and a 407 reply, '
                 'every position of EOF/error/timeout in a segmented reply, every header length 16380..16390; non-trivial = a proxy entry is configured for the scheme; '
                 'distinct by (url, mapping, environment, reads)')
     n = 25000 if thorough else 700
